@@ -39,12 +39,13 @@ def parseOp (ws : List String) : Option Op :=
   | ["setts", m, ms, l, f] => some (.setTS (natArg m) (natArg ms) (natArg l % 2 ^ 18) false (parseFault f))
   | ["writets", m, ms, l, f] => some (.setTS (natArg m) (natArg ms) (natArg l % 2 ^ 18) true (parseFault f))
   | ["resetmem", m] => some (.resetMem (natArg m))
+  | ["extwin", v] => some (.extWin (natArg v))
   | _ => none
 
 def opMember : Op → Nat
   | .lead m | .expire m | .getTS m _ | .tryTS m _ | .update m _ _ | .gupdate m _ | .sync m _ _ | .gsync m _
   | .finish m _ | .setTS m _ _ _ _ | .resetMem m => m
-  | .resign | .dropKey => 0
+  | .resign | .dropKey | .extWin _ => 0
 
 def viewStr (s : St) (m : Nat) : String :=
   let x := s.mems m
